@@ -57,6 +57,22 @@ def cfg_space_two(tier):
     return out
 
 
+def cfg_space_pair(tier):
+    """Two stoppers watching one evaluator in the same list (different patience / tolerance / criterion): a stop
+    requested by one of them stands, whatever the other concludes at the same epoch."""
+    L = 4
+    vals = "{-1, 0, 2}" if tier == "quick" else "{-2, 0, 1, 4}"
+    tols = "{<<1,2>>, <<3,2>>}"
+    cbs = ('<<[t |-> "rec"], [t |-> "eval", period |-> 1, kind |-> "metric"], '
+           '[t |-> "early", period |-> 1, patience |-> pa, tolN |-> tl[1], tolD |-> tl[2], crit |-> cr, ev |-> 2], '
+           '[t |-> "early", period |-> 1, patience |-> pb, tolN |-> tm[1], tolD |-> tm[2], crit |-> cr2, ev |-> 2], [t |-> "rec"]>>')
+    return ['''{ [type |-> "positive", startEp |-> 1, epochs |-> %d, N |-> 1, posB |-> 1, negB |-> 0,
+       data |-> <<1>>, bases |-> <<>>, sched |-> FALSE, entryStop |-> FALSE, again |-> "no", perms |-> "id",
+       cbs |-> %s, vals |-> <<0>> \\o v, vars |-> <<0, 0, 0, 0, 0>>] :
+       v \\in [1..%d -> %s], pa \\in 1..2, pb \\in 1..2, tl \\in %s, tm \\in %s,
+       cr \\in {"relative", "absolute"}, cr2 \\in {"relative", "absolute"} }''' % (L, cbs, L, vals, tols, tols)]
+
+
 def replay_two(chk, beh, seed, n):
     """first run, what the user does in between, second run on the same objects"""
     cfg, carry = beh["cfg"], beh["carry"]
@@ -181,6 +197,17 @@ def run(tier, seed):
             if nontriv(beh):
                 chk.nontriv(("two-runs", n))
     chk.extra["two_run_behaviours_replayed"] = len(two)
+    # -- two stoppers in one list
+    res3 = tc.mc(cfg_space_pair(tier), maxinj=0, invariants=["TypeOK", "FirstHit", "Complete", "OnSchedule"], timeout=3400)
+    chk.add_tlc(res3, "Train.tla early stopping, two stoppers on one evaluator")
+    if res3.violation:
+        chk.violation("spec:" + str(res3.violation), dict(tlc=res3.raw[-4000:]))
+        return chk.finish()
+    pair = rng.sample(res3.exports, min(len(res3.exports), 300 if tier == "quick" else 6000))
+    with warnings.catch_warnings():
+        warnings.simplefilter("ignore")
+        tc.replay_behaviours(chk, pair, seed, key="replay:two-stoppers", nontrivial=nontriv, post=post, opts=opts)
+    chk.extra["two_stopper_behaviours_replayed"] = len(pair)
     construction_table(chk)
     # -- code -> spec: longer randomised runs (patience up to 5, values 0..9, any tolerance)
     runs = []
